@@ -809,6 +809,10 @@ func (e *escaper) escapeTree(c context, node parse.Node, name string, line int) 
 		e.ns.cost = map[string]int{}
 	}
 	e.ns.cost[dname] = e.ns.steps - before
+	if out.state != stateError {
+		// The same context as later calls get from the memo.
+		out = memoizedContext(e.output[dname]).after(c)
+	}
 	return out, dname
 }
 
@@ -834,7 +838,8 @@ const relativeValueMark = "\x00"
 
 // memoize returns the form in which out, the output context of a call made in context c, is kept.
 func memoize(c, out context) context {
-	if c.state == stateAttr && out.state == stateAttr && strings.HasPrefix(out.attr.value, c.attr.value) && !strings.HasPrefix(out.attr.value, relativeValueMark) {
+	if c.state == stateAttr && out.state == stateAttr && out.attr.name == c.attr.name && out.delim == c.delim &&
+		strings.HasPrefix(out.attr.value, c.attr.value) && !strings.HasPrefix(out.attr.value, relativeValueMark) {
 		out.attr.value = relativeValueMark + out.attr.value[len(c.attr.value):]
 	}
 	return out
@@ -844,10 +849,9 @@ func memoize(c, out context) context {
 func (m memoizedContext) after(c context) context {
 	out := context(m)
 	if strings.HasPrefix(out.attr.value, relativeValueMark) {
+		// The called template ends inside the attribute value that it was called in: what is
+		// known about the part of the value before the call is not forgotten.
 		out.attr.value = c.attr.value + out.attr.value[len(relativeValueMark):]
-	}
-	if c.state == stateAttr && out.state == stateAttr {
-		// What is known about the part of the value before the call is not forgotten.
 		out.attr.dynamic = out.attr.dynamic || c.attr.dynamic
 		out.attr.dynamicStart = out.attr.dynamicStart || c.attr.dynamicStart
 	}
